@@ -465,6 +465,8 @@ func vC14SpecSx(v vC14Verdict) (vSx, vSx) {
 	switch v.outcome {
 	case vC14OClosed:
 		o = vL(vZ(3), vI(v.code), vB(v.reason))
+	case vC14OCut:
+		o = vL(vZ(0), vBool(v.cutInHdr))
 	default:
 		o = vL(vI(v.outcome))
 	}
@@ -737,7 +739,7 @@ func vC14GenSession(r *vRng) vSx {
 		total := 0
 		for i := 0; i < nfrag; i++ {
 			n := vC14Sizes[r.intn(len(vC14Sizes))]
-			if r.chance(1, 40) {
+			if r.chance(1, 150) {
 				n = r.pickInt(65535, 65536, 65537, 70000)
 			}
 			fop := 0
@@ -1029,6 +1031,13 @@ func TestVerifC14(t *testing.T) {
 				limits = append(limits, 125, 126, 251)
 			} else if d < depth {
 				limits = append(limits, 251)
+			}
+			if last.form == 3 && d <= full64 {
+				// whole 65536-byte payload present: only limits that let it through or just not
+				limits = []int64{0, 65535, 65536}
+				if d > 1 {
+					limits = []int64{0}
+				}
 			}
 			for _, l := range limits {
 				runOne(vL(vZ(vC14Fixed()), vBool(server), vZ(l), vZ(1), vB(wire)))
